@@ -98,15 +98,21 @@ func (p *G2Elt) Data() ([]byte, error) {
 
 func (p *G2Elt) Add(a, b kyber.Point) kyber.Point {
 	aa, bb := a.(*G2Elt), b.(*G2Elt)
-	p.inner.Set(&aa.inner)
-	p.inner.AddAssign(&bb.inner)
+	// compute into a temporary: the receiver may also be the second operand
+	var res bls12381.G2Jac
+	res.Set(&aa.inner)
+	res.AddAssign(&bb.inner)
+	p.inner.Set(&res)
 	return p
 }
 
 func (p *G2Elt) Sub(a, b kyber.Point) kyber.Point {
 	aa, bb := a.(*G2Elt), b.(*G2Elt)
-	p.inner.Set(&aa.inner)
-	p.inner.SubAssign(&bb.inner)
+	// compute into a temporary: the receiver may also be the second operand
+	var res bls12381.G2Jac
+	res.Set(&aa.inner)
+	res.SubAssign(&bb.inner)
+	p.inner.Set(&res)
 	return p
 }
 
